@@ -15,3 +15,38 @@ package altair
 //@   requires msg != nil
 //@   assigns heap(CachedPubkey.decompressed)
 //@   ensures (err == nil) == sync_msg_sig_ok(gvver, spec, epc, *msg)
+
+// sync_committee_contribution_and_proof topic: selection and signature checks as assumed predicates
+//@ sort SigT = common.BLSSignature
+//@ sort VIdx = common.ValidatorIndex
+//@ sort SlotT = common.Slot
+//@ sort SCPT = SignedContributionAndProof
+//@ sort ContribT = SyncCommitteeContribution
+//@ sort CPubP = *common.CachedPubkey
+//@ ufun sync_is_aggregator(SpecP, SigT) bool
+//@ ufun sync_sel_ok(int, SpecP, EpcP, VIdx, SigT, SlotT, int) bool
+//@ ufun scp_sig_ok(int, SpecP, EpcP, SCPT) bool
+//@ sort CPubsT = []*common.CachedPubkey
+//@ ufun contrib_sig_ok(int, SpecP, CPubsT, ContribT) bool
+
+//@ func IsSyncCommitteeAggregator(spec, sig) r
+//@   trusted
+//@   opt noalloc
+//@   ensures r == sync_is_aggregator(spec, sig)
+
+//@ func ValidateSyncAggregatorSelectionProof(spec, epc, domainFn, aggregator, selectionProof, slot, subcommitteeIndex) err
+//@   trusted
+//@   assigns heap(CachedPubkey.decompressed)
+//@   ensures (err == nil) == sync_sel_ok(gvver, spec, epc, aggregator, selectionProof, slot, subcommitteeIndex)
+
+//@ func (b *SignedContributionAndProof) VerifySignature(spec, epc, domainFn) err
+//@   trusted
+//@   requires b != nil
+//@   assigns heap(CachedPubkey.decompressed)
+//@   ensures (err == nil) == scp_sig_ok(gvver, spec, epc, *b)
+
+//@ func (sc *SyncCommitteeContribution) VerifySignature(spec, subcommitteePubkeys, domFn) err
+//@   trusted
+//@   requires sc != nil
+//@   assigns heap(CachedPubkey.decompressed)
+//@   ensures (err == nil) == contrib_sig_ok(gvver, spec, subcommitteePubkeys, *sc)
